@@ -153,8 +153,14 @@ class InjectInitialPopulationWrapper(PopulationInitializer):
             else:
                 return Individual(x, representation=representation)
 
-        for i, p in enumerate(self.programs[:target_size]):
+        injected = self.programs[:target_size]
+        for p in injected:
             yield ensure_ind(p)
 
-        if i < target_size - 1:
-            yield from self.backup_initializer.initialize(problem, representation, random, target_size - i)
+        if len(injected) < target_size:
+            yield from self.backup_initializer.initialize(
+                problem,
+                representation,
+                random,
+                target_size - len(injected),
+            )
